@@ -19,10 +19,10 @@ func init() {
 		Title: "Errors and debug queries report the right source line and variables",
 		Explanation: "Decided: R17-setline — every AST node (a type embedding ast.Node) constructed in a grammar action of parse/parser.go or synthesised in compile.go has SetLine called on that very node (same access path) before the action / function ends, and the node kinds that carry a block also get SetLastLine; exempt with reasons: the main chunk's synthetic FunctionExpr and the folded constant whose line is set by the two callers of constFold; " +
 			"R17-rawread — 'line information is a function of token positions only': the input reader is read only inside Scanner.readNext/Peek/Newline, so every newline byte passes the line counter; Next counts a line for both '\\n' and '\\r' through Newline (which swallows the second half of CRLF/LFCR); a token's position is taken from the scanner before the token is scanned; " +
-			"R17-blocks — EnterBlock/LeaveBlock are paired on every non-raising path of each compile function that opens a scope; LeaveBlock and compileFunctionExpr call EndScope (every DbgLocalInfo gets an EndPc) and RegisterLocalVar records StartPc; R17-where — error positions and currentline are read from DbgSourcePositions[Pc-1] of the frame's own prototype; R07-parallel shared (the line table is written in lock-step with the code). " +
+			"R17-blocks — EnterBlock/LeaveBlock are paired on every non-raising path of each compile function that opens a scope; LeaveBlock and compileFunctionExpr call EndScope (every DbgLocalInfo gets an EndPc) and RegisterLocalVar records StartPc; R17-lines — no instruction that can raise at run time is attributed to the closing line of its statement (eline is reserved for block-closing instructions); R17-where — error positions and currentline are read from DbgSourcePositions[Pc-1] of the frame's own prototype; R07-parallel shared (the line table is written in lock-step with the code). " +
 			"NOT decided: which line each instruction receives, pc-range correctness after the peephole passes.",
 		Trusted: []string{},
-		Rules:   []func(*Ctx){ruleSetLine, ruleRawRead, ruleBlocks, ruleWhere, ruleParallel},
+		Rules:   []func(*Ctx){ruleSetLine, ruleRawRead, ruleBlocks, ruleWhere, ruleRaisingLines, ruleParallel},
 	})
 }
 
@@ -470,6 +470,45 @@ func ruleBlocks(c *Ctx) {
 			}
 		})
 		c.check(okc, R, "RegisterLocalVar:StartPc", p.pos(fn.Pos()), "StartPc is derived from the current pc", "RegisterLocalVar does not record where the local starts")
+	}
+}
+
+// ruleRaisingLines: an instruction that can raise at run time is attributed to where its construct
+// starts (sline / an operand's line), never to the closing line of the enclosing block (eline), which
+// is reserved for the instructions that close a block (JMP back, CLOSE, final RETURN).
+func ruleRaisingLines(c *Ctx) {
+	const R = "R17-lines"
+	c.floor(R, 30)
+	p := c.P
+	eline := p.Fn("lua", "eline")
+	closing := map[string]bool{"OP_JMP": true, "OP_CLOSE": true, "OP_RETURN": true, "OP_NOP": true, "OP_LOADNIL": true, "OP_LOADBOOL": true, "OP_MOVE": true, "OP_LOADK": true}
+	t := p.vmTable()
+	for _, fn := range p.srcFuncs {
+		if fn.Pkg == nil || fn.Pkg.Pkg.Path() != luaPath {
+			continue
+		}
+		for _, e := range p.emitSites(fn) {
+			if e.Kind == "Add" || len(e.Ops) == 0 {
+				continue
+			}
+			raising := false
+			names := []string{}
+			for _, k := range e.Ops {
+				if int(k) < len(t.Ops) && !closing[t.Ops[k].Name] {
+					raising = true
+					names = append(names, t.Ops[k].Name)
+				}
+			}
+			if !raising {
+				continue
+			}
+			line := e.Args[len(e.Args)-1]
+			c.Sites++
+			call, isCall := stripConv(line).(*ssa.Call)
+			usesEline := isCall && call.Call.StaticCallee() == eline
+			key := fmt.Sprintf("%s:%s#%d", fname(fn), strings.Join(names, "|"), countKey(c, R, fname(fn)+strings.Join(names, "|")))
+			c.check(!usesEline, R, key, p.ipos(e.In), "line taken from the construct's start / operand", "an instruction that can raise ("+strings.Join(names, "|")+") is given the LAST line of its statement (eline): an error in a multi-line construct's header is reported at the line of its closing 'end'")
+		}
 	}
 }
 
